@@ -28,6 +28,7 @@ macro_rules
               | apply PL.evCancel
               | apply PL.cancelAllFor
               | apply PL.cancelKindFor
+              | apply PL.cancelUserAll
               | apply PL.recordRes
               | apply PL.recordBuf
               | apply PL.recordOQ
